@@ -477,6 +477,9 @@ def build_harness_parts():
     """the four translation units, compiled concurrently (each is cached by the hash of /repo's sources and its flags)"""
     import threading
     res = {}
+    lib, l = vf.build_repo_lib()          # once, before the threads (they share its cache directory)
+    if lib is None:
+        return None, "library build failed:\n" + l
 
     def work(k):
         res[k] = vf.build_harness("c03_modular.C", extra_flags=["-DC03_PART=%d" % k], name="c03_modular_p%d" % k)
@@ -606,6 +609,12 @@ def main(tier, replay=None):
                 ms = list(range(lo, hi + 1)) if hi <= 256 else moduli(rng, lo, hi, 300)
             else:
                 ms = moduli(rng, lo, hi, 1 if quick else 120)
+            if quick and hi > (1 << 70) and len(ms) > 16:
+                # big-number rings: the extracted model computes on unary-binary positives; keep the boundary moduli + a sample
+                keep = ms[:6] + ms[-1:] + [m for m in ms if m in (hi - 1, hi - 2)]
+                rest = [m for m in ms if m not in keep]
+                rng.shuffle(rest)
+                ms = keep + rest[:8]
             per = 2 if quick else 8
             if not quick and ring in ("i16_u32", "u16_u32"):
                 # EVERY modulus of the 16-bit double-width rings with the overflow corners (finite space, swept completely)
